@@ -108,6 +108,9 @@ def main():
             detail = (m.group(0) if m else log[-1500:])
             broken.append(dict(kind='proof', what='make ' + ' '.join(targets), detail=detail[-1500:]))
     cone = lib.dep_cone(f'Props/{prop}.v')
+    for gf, why in gen.FAILED.items():
+        if f'Gen/{gf}' in cone:
+            broken.append(dict(kind='tie', what=f'translator for Gen/{gf} failed closed (source no longer in the translated subset)', detail=why))
     obligations = lib.count_obligations(cone)
     def built(f):
         v, vo = os.path.join(lib.COQ, f), os.path.join(lib.COQ, f[:-2] + '.vo')
